@@ -54,6 +54,7 @@ func diffMayPanic(c *Ctx, pk *packages.Package) *goan.MayPanic {
 	// valid $ref that is not such a name (a JSON pointer inside a definition, an escaped name, another
 	// document) yields nil — also through the SchemaFromRefFn callbacks handed to CompareProperties
 	m.NilableResult = map[string]bool{"forItems": true, "schemaFromRef": true, "getRefSchemaFromSpec1": true, "getRefSchemaFromSpec2": true, "SchemaFromRefFn": true}
+	m.NilOnlyForNilArg = map[string]bool{"forItems": true} // `if items == nil { return nil }` is its only nil answer (checked below)
 	info := pk.TypesInfo
 	// array facts: isArray(x) / isArrayType(x.Type) / <local defined from x.Type…> == ArrayType
 	m.ExtraCondFacts = func(mp *goan.MayPanic, e ast.Expr, pol bool) map[string]int {
@@ -166,6 +167,7 @@ func checkC12(c *Ctx) {
 		}
 	}
 	checkConstruction(c, pk)
+	checkNilOnlyForNilArg(c, "C12.R1.construction", pk, []string{"forItems"})
 	checkLocationNodes(c, pk)
 	checkTypedNilArgs(c, "C12.R1.typed-nil", pk, 12)
 
@@ -757,5 +759,37 @@ func checkVisitedOrder(c *Ctx, rule string, pk *packages.Package, linear bool) {
 				fmt.Sprintf("%s ranges over the map %s and its body reaches compareSchema: the visited set lets the first iteration to reach a (root, $ref) key run the comparison and skips the others, so which property a shared definition is reported under follows map iteration order — iterate over sorted names, or show that every iteration works under a root of its own", load.FuncName(fd), goan.ExprString(rs.X)))
 			return true
 		})
+	}
+}
+
+// checkNilOnlyForNilArg: the functions the may-panic analysis trusts to answer nil only for a
+// nil argument do so: every `return nil` of theirs is under `<first parameter> == nil`.
+func checkNilOnlyForNilArg(c *Ctx, rule string, pk *packages.Package, names []string) {
+	info := pk.TypesInfo
+	for _, name := range names {
+		fd := load.FuncDecl(pk, name)
+		if fd == nil || fd.Type.Params.NumFields() == 0 || len(fd.Type.Params.List[0].Names) == 0 {
+			c.Anchor(rule, "diff."+name, "not found")
+			continue
+		}
+		param := info.Defs[fd.Type.Params.List[0].Names[0]]
+		ok := true
+		goan.WalkGuards(info, fd.Body, func(leaf ast.Node, guards []goan.Lit, _ []ast.Stmt) {
+			rs, isRet := leaf.(*ast.ReturnStmt)
+			if !isRet || len(rs.Results) != 1 || !goan.IsNil(info, rs.Results[0]) {
+				return
+			}
+			under := false
+			for _, g := range guards {
+				if be, isBin := ast.Unparen(g.E).(*ast.BinaryExpr); isBin && g.Tag == nil && !g.NonEmpty && be.Op == token.EQL && g.Pos && identIs(info, be.X, param) && goan.IsNil(info, be.Y) {
+					under = true
+				}
+			}
+			if !under {
+				ok = false
+			}
+		})
+		c.Check(ok, rule, "diff."+name+" › answers nil only for a nil argument", c.posOf(pk, fd.Pos()), "every `return nil` is under `"+param.Name()+" == nil`",
+			name+" can answer nil for a non-nil argument: its callers dereference the result after testing the argument only")
 	}
 }
